@@ -41,6 +41,8 @@ Orphans(r, d) == {x \in Range(M(CidOf(d)).children) :
                     /\ ~\E t \in DOMAIN tag[r] : tag[r][t] = x
                     /\ ~\E y \in DOMAIN man[r] \ {d} : x \in Range(M(CidOf(y)).children)}
 G2(r, d) == "child-orphan" \in KnownOpen => Orphans(r, d) = {}
+\* G4 (finding child-resurrect): deleting by digest a manifest that an index of the repository still lists
+G4(r, d) == "child-resurrect" \in KnownOpen => ~\E y \in DOMAIN man[r] \ {d} : d \in Range(M(CidOf(y)).children)
 \* G3: blobs of indexed manifests are not deleted through the blob API (index entry without content: outcome not pinned)
 G3(r, d) == d \notin DOMAIN man[r]
 
@@ -100,7 +102,7 @@ OpsManGet == {[op |-> "ManGet", repo |-> r, ref |-> ref, accept |-> a, method |-
 FManGet == {o \in OpsManGet : Resolve(o.repo, o.ref) # "" /\ (o.method = "HEAD" => o.range = "")}
 
 OpsManDel == {[op |-> "ManDel", repo |-> r, ref |-> ref] : r \in GR, ref \in AllRefs}
-FManDel == {o \in OpsManDel : Resolve(o.repo, o.ref) # "" /\ (o.ref.k = "dig" => G2(o.repo, o.ref.v))
+FManDel == {o \in OpsManDel : Resolve(o.repo, o.ref) # "" /\ (o.ref.k = "dig" => G2(o.repo, o.ref.v) /\ G4(o.repo, o.ref.v))
                               /\ (("tag-delete-drops-referrer" \in KnownOpen /\ o.ref.k = "tag")
                                     => SubjectOf(Resolve(o.repo, o.ref)) = "")}
 FManDelMiss == {o \in OpsManDel : Resolve(o.repo, o.ref) = ""}
